@@ -94,9 +94,12 @@ L2Begin(cfg, S, m) ==
     [] OTHER -> Out("err", {}, 0, S)
 
 Deny(S) == Out("denied", {}, 0, [S EXCEPT !.sess = "denied", !.locked = (S.locked \/ Lockable(S.h))])
-L2Cred(S, c) ==
+\* validate_creds re-checks the validity window at every credential step (commit 3b51d07); the
+\* server counts that denial on the soft lock like any other.
+L2Cred(w, advanced, S, c) ==
   IF S.sess # "prog" THEN Out("err", {}, 0, S)
   ELSE IF Lockable(S.h) /\ S.locked THEN Out("denied", {}, 0, [S EXCEPT !.sess = "denied"])
+  ELSE IF ~Valid(w, advanced) THEN Deny(S)
   ELSE CASE S.h = "anonymous" -> IF c = "anon" THEN Out("success", {}, 1, [S EXCEPT !.sess = "success"]) ELSE Deny(S)
          [] S.h = "password"  -> IF c = "pw_ok" THEN Out("success", {}, 1, [S EXCEPT !.sess = "success"]) ELSE Deny(S)
          [] S.h = "passwordtotp" ->
@@ -112,7 +115,7 @@ L2Cred(S, c) ==
 L2Step(cfg, w, advanced, S, step) ==
   CASE step.a = "init"  -> L2Init(cfg, w, advanced, S)
     [] step.a = "begin" -> L2Begin(cfg, S, step.x)
-    [] OTHER            -> L2Cred(S, step.x)
+    [] OTHER            -> L2Cred(w, advanced, S, step.x)
 \* the clock jump between two steps releases the soft lock (the jump exceeds every delay / window)
 L2Advance(S) == [S EXCEPT !.locked = FALSE]
 =============================================================================
